@@ -37,6 +37,17 @@ Definition xml_repr_args (k : xkind) (args : list Z) (off : option Z) : list Z :
       end
   end.
 
+(* datetime.date/time/datetime.__repr__: "%s.%s(%s)" % (module, qualname, args), trailing
+   zero second / microsecond dropped *)
+Definition std_name (k : skind) : str :=
+  match k with SDate => lit "date" | STime => lit "time" | SDateTime => lit "datetime" end.
+Definition drop_last_zero (l : list Z) : list Z := if last l 1 =? 0 then removelast l else l.
+Definition std_repr_args (k : skind) (args : list Z) : list Z :=
+  match k with
+  | SDate => args
+  | _ => drop_last_zero (drop_last_zero args)
+  end.
+
 (* ---------- repr_model: which fields are written -------------------------- *)
 (* default is not unset and ((callable(default) and default() == value) or default == value) *)
 Definition skip_default (fd : fdesc) (v : value) : bool :=
@@ -61,6 +72,7 @@ Fixpoint repr (W : world) (v : value) {struct v} : pyexpr :=
   | VXml k args off => ECall [xml_name k] (map EInt (xml_repr_args k args off)) []
   | VDuration d => ECall [lit "XmlDuration"] [raw_dq d] []
   | VPeriod d => ECall [lit "XmlPeriod"] [raw_dq d] []
+  | VStd k args => ECall [lit "datetime"; std_name k] (map EInt (std_repr_args k args)) []
   | VEnum c m => EName [last (snd c) []; m]          (* Enum.__str__ uses __name__ *)
   | VList l => EList (map (repr W) l)
   | VTuple l => match l with [] => ETuple [] | _ => EList (map (repr W) l) end
@@ -119,6 +131,7 @@ Definition type_of (v : value) : option cref :=
   | VXml k _ _ => Some (m_datatype, [xml_name k])
   | VDuration _ => Some (m_datatype, [lit "XmlDuration"])
   | VPeriod _ => Some (m_datatype, [lit "XmlPeriod"])
+  | VStd k _ => Some (lit "datetime", [std_name k])
   | VEnum c _ => Some c
   | VObj c _ => Some c
   | _ => None
@@ -208,6 +221,7 @@ Definition wf_local (W : world) (v : value) : bool :=
   | VDecimal s => match dec_parse s with Some _ => true | None => false end
   | VFloat bits => (0 <=? bits) && (bits <? 2 ^ 64) && (fl_isfinite bits || (bits =? fl_pos_inf) || (bits =? fl_neg_inf) || (bits =? fl_nan))
   | VXml k args _ => Nat.eqb (length args) (xml_arity k)
+  | VStd k args => Nat.eqb (length args) (match k with SDate => 3 | STime => 4 | SDateTime => 7 end)%nat
   | VEnum c m => enum_has W c m && match lib_kind c with None => true | Some _ => false end && nospace (fst c)
   | VDict kv => forallb scalar_key (map fst kv) && keys_distinct (map fst kv)
   | VObj c fs =>
@@ -253,6 +267,9 @@ Definition g_init_local (W : world) (v : value) : bool :=
       end
   | _ => true
   end.
+(* G6 datetime.date/time/datetime values are written datetime.date(...) while the import
+   line is `from datetime import date` *)
+Definition g_std_local (v : value) : bool := match v with VStd _ _ => false | _ => true end.
 (* G3 two imported names collide (the later import line shadows the earlier one), or
    an imported name shadows a builtin the rendering relies on *)
 Definition pair_compatible (a b : import_line) : bool :=
@@ -265,9 +282,10 @@ Definition g_enum (W : world) (v : value) : bool := forallb g_enum_local (subs W
 Definition g_raw (W : world) (v : value) : bool := forallb g_raw_local (subs W v).
 Definition g_init (W : world) (v : value) : bool := forallb (g_init_local W) (subs W v).
 Definition g_imports (W : world) (v : value) : bool := g_names (map import_pair (types W v)).
+Definition g_std (W : world) (v : value) : bool := forallb g_std_local (subs W v).
 
 Definition guard (W : world) (v : value) : bool :=
-  g_array W v && g_enum W v && g_imports W v && g_raw W v && g_init W v.
+  g_array W v && g_enum W v && g_imports W v && g_raw W v && g_init W v && g_std W v.
 
 (* ---------- model of "render, exec in a fresh namespace, compare" ---------- *)
 Definition exec_back (W : world) (v : value) : option value :=
